@@ -61,7 +61,7 @@ class Engine(ExprEval, NumpyModel, NumpyFuncs):
         self.spec_consts = dict(spec_consts or {})
         self.spec_funcs = dict(spec_funcs or {})
         self.spec_names = set(self.spec_funcs) | {"forall", "exists", "implies", "iff", "ite", "old", "shape", "rowsum",
-                                                  "is_none", "typeis", "lam", "isnan_", "fresh", "using", "gather_pos", "gather_src"}
+                                                  "is_none", "typeis", "lam", "isnan_", "fresh", "using", "gather_pos", "gather_src", "sort_inv", "sort_perm"}
         self.externals = dict(externals or {})
         self.obligations: list[Obligation] = []
         self.assumptions: set[str] = set()
@@ -601,6 +601,10 @@ class Engine(ExprEval, NumpyModel, NumpyFuncs):
             return args[0].gather_pos(to_z3(args[1]))
         if name == "gather_src":
             return args[0].gather_src(to_z3(args[1]))
+        if name == "sort_inv":      # position in the sorted list of the element at (unsorted) position k
+            return args[0].perm_inv(to_z3(args[1]))
+        if name == "sort_perm":
+            return args[0].perm(to_z3(args[1]))
         f = self.spec_funcs[name]
         return f(self, st, *args, **kw)
 
@@ -766,6 +770,8 @@ class Engine(ExprEval, NumpyModel, NumpyFuncs):
 
     def exec_stmt_ghost(self, st, stmt):
         key = self.stmt_key(stmt)
+        if st.env.get("$func") is self.cur_fi and not getattr(stmt, "_ghost", False) and not isinstance(stmt, (ast.For, ast.While, ast.If)):
+            self._cur_stmt_key = key
         before = self.ghost_for(st, "before:" + key)
         states = [(st, None)]
         if before:
@@ -1442,6 +1448,26 @@ class Engine(ExprEval, NumpyModel, NumpyFuncs):
         caller_env = st.env
         scope = {"$func": fi, "$fresh": True}
         self.unify_params(st, c, bound, scope, node)
+        if c.ghost_params:
+            key = getattr(self, "_cur_stmt_key", None)
+            gargs = (self.cur.call_ghosts.get(key, {}) if self.cur is not None else {}).get(fi.node.name)
+            if gargs is None:
+                raise Unsupported(f"call of {fi.qualname} at `{key}` needs ghost arguments {list(c.ghost_params)} (call_ghosts)")
+            for gname, gt in c.ghost_params.items():
+                gv = self.eval_in(st, gargs[gname], caller_env)
+                ts = parse_type(gt)
+                if not static_matches(ts, gv, self.repo):
+                    raise Unsupported(f"ghost argument {gname} of {fi.qualname} does not match {gt}")
+                scope[gname] = gv
+                if ts.base == "arr":
+                    for d, actual in zip(ts.dims, gv.shape):
+                        d = d.strip()
+                        if d.isidentifier() and d not in scope:
+                            scope[d] = actual
+                        elif not d.isdigit():
+                            want = self.eval_dim(st, d, scope, bind_ok=False)
+                            if want is not actual:
+                                self.oblige(st, num_cmp("==", actual, want), "pre", f"{c.ident}:shape of ghost {gname}", node)
         for k, e in c.lets.items():
             scope[k] = self.eval_in(st, e, scope)
         # preconditions
@@ -1538,6 +1564,8 @@ class Engine(ExprEval, NumpyModel, NumpyFuncs):
         st.assume(PI_AXIOM)
         scope = {"$func": fi}
         self.setup_params(st, c, scope)
+        for gname, gt in c.ghost_params.items():
+            scope[gname] = self.make_value(st, parse_type(gt), gname, scope)
         st.env = scope
         for k, e in c.lets.items():
             scope[k] = self.eval(st, parse_expr(e))
